@@ -6,6 +6,7 @@ CONSTANTS
   Unguarded = {"AssnSubjectNil", "ConfDataNil", "ConditionsNil", "PlainRootNil", "LogoutRootNil", "LogoutIssuerNil", "AuthnIssuerNil", "EncCertIndex"}
   Unwrapped = {}
   DepthRestore = "nobound"
+  ContextDropped = FALSE
 INIT Init
 NEXT Next
 INVARIANTS
